@@ -185,6 +185,7 @@ func (b *builder) base(o baseOpt) {
 			}
 			if r.Intn(6) == 0 {
 				d.Raw = true
+				d.NilTZ = r.Intn(3) == 0 // a Device literal that says nothing about a time zone
 				if d.Protocol == "" || d.Protocol == "junk" {
 					d.Protocol = pick(r, "udp", "tcp", "any", "")
 				}
@@ -241,7 +242,9 @@ func (b *builder) args(op model.Op, serial uint32, known *ctl) model.Args {
 		}
 	case model.SetListener:
 		if r.Intn(6) == 0 && len(b.sc.Clients) > 0 {
-			if ap, err := netip.ParseAddrPort(b.sc.Clients[0].Listen); err == nil && r.Intn(3) == 0 {
+			if ap, err := netip.ParseAddrPort(b.sc.Clients[0].Listen); err == nil && r.Intn(4) == 0 {
+				a.AddrPort = fmt.Sprintf("%s:0", ap.Addr()) // the client's own listen address, no port
+			} else if err == nil && r.Intn(3) == 0 {
 				a.AddrPort = fmt.Sprintf("0.0.0.0:%d", ap.Port()) // no address, the client's own listen port
 			} else if err == nil && !ap.Addr().IsUnspecified() {
 				a.AddrPort = ap.String() // the client's own listen address
@@ -868,7 +871,8 @@ func invalidate(r *rand.Rand, op model.Op, a *model.Args) {
 			"[::1]:60001", "[::ffff:192.168.1.100]:60001", "[fe80::1%eth0]:60001", "[::]:0", "[::]:60001", "255.255.255.255:60001", "[2001:db8::1]:1", "[::ffff:0.0.0.0]:0")
 	case model.SetAddress:
 		bad := [][]byte{nil, {}, {1, 2, 3}, {1, 2, 3, 4, 5}, {0x20, 0x01, 0x0d, 0xb8, 0, 0, 0, 0, 0, 0, 0, 0, 0, 0, 0, 1},
-			{0, 0, 0, 0, 0, 0, 0, 0, 0, 0, 0, 0, 0, 0, 0, 1}, {0, 0, 0, 0, 0, 0, 0, 0, 0, 0, 0xff, 0xff, 10, 0, 0, 1}, {10, 0, 0, 1}}
+			{0, 0, 0, 0, 0, 0, 0, 0, 0, 0, 0, 0, 0, 0, 0, 1}, {0, 0, 0, 0, 0, 0, 0, 0, 0, 0, 0xff, 0xff, 10, 0, 0, 1}, {10, 0, 0, 1},
+			make([]byte, 16), make([]byte, 16), {0, 0, 0, 0}}
 		a.IPs[r.Intn(3)] = append([]byte(nil), bad[r.Intn(len(bad))]...)
 		if r.Intn(4) == 0 {
 			a.IPs[r.Intn(3)] = nil
@@ -1383,6 +1387,37 @@ func (b *builder) listenStep(client int) engine.Step {
 		st.Holds = []time.Duration{span / 4, span / 4, time.Millisecond}
 		st.StopAfter = at + span + 1
 	}
+	switch r.Intn(24) {
+	case 0:
+		// the stop signal is already waiting when Listen is called: bound, connected, stopped - at once
+		st.StopPending = true
+	case 1:
+		// traffic does not stop because the application wants to: datagrams keep coming, a few tens of milliseconds
+		// apart, for seconds after the signal
+		st.Holds = nil
+		st.StopAfter = time.Duration(100+r.Intn(400)) * time.Millisecond
+		gap := time.Duration(20+r.Intn(150)) * time.Millisecond
+		for at := time.Duration(0); at < st.StopAfter+3*time.Second; at += gap {
+			d, cl := b.eventDatagram()
+			st.Feed = append(st.Feed, engine.Emit{After: at, Via: "udp", From: senders[r.Intn(2)], Data: d, Class: cl})
+		}
+	case 2:
+		// one sender repeats the very same junk: as many errors as datagrams
+		st.Holds = nil
+		junk := b.datagram(pick(r, "wronglen", "garbage", "serial0", "wrongfn"), model.GetStatus, &model.Args{}, model.GenSerial(r))
+		at := time.Duration(r.Int63n(int64(span)))
+		for i := 12 + r.Intn(30); i > 0; i-- {
+			at += time.Duration(r.Intn(3)) * time.Millisecond
+			st.Feed = append(st.Feed, engine.Emit{After: at, Via: "udp", From: senders[0], Data: junk, Class: "junk-run"})
+			if r.Intn(6) == 0 {
+				d, cl := b.eventDatagram()
+				st.Feed = append(st.Feed, engine.Emit{After: at, Via: "udp", From: senders[1], Data: d, Class: cl})
+			}
+		}
+		if st.StopAfter < at+time.Millisecond {
+			st.StopAfter = at + time.Millisecond
+		}
+	}
 	st.OnErrFalse = r.Intn(4) == 0 // what OnError returns is the application's business: the listener goes on either way
 	if st.OnErrFalse && r.Intn(2) == 0 {
 		// malformed datagrams back to back
@@ -1421,11 +1456,13 @@ func genC10(b *builder) {
 		first := b.listenStep(0)
 		first.StopAfter = time.Duration(200+r.Intn(200)) * time.Millisecond
 		first.Holds = nil
+		first.StopPending = false
 		sc.Tasks = append(sc.Tasks, engine.Task{Steps: []engine.Step{first}})
 		early := engine.Step{Kind: "listen", Client: 0} // no stopper: it cannot start
 		again := b.listenStep(0)
 		again.SameQ = true
 		again.Holds = nil
+		again.StopPending = false
 		again.StopAfter = time.Duration(50+r.Intn(200)) * time.Millisecond
 		sc.Tasks = append(sc.Tasks, engine.Task{Start: time.Duration(1+r.Intn(100)) * time.Millisecond,
 			Steps: []engine.Step{early, {Kind: "sleep", Delay: 500 * time.Millisecond}, again}})
@@ -1618,6 +1655,10 @@ func genC08(b *builder) {
 				break
 			}
 		}
+	}
+	if r.Intn(12) == 0 {
+		// one send fails (network unreachable, no buffers): that call fails - the others are none the worse for it
+		sc.Faults = append(sc.Faults, vnet.Fault{Kind: pick(r, "udpwrite", "udpwrite", "tcpwrite"), Nth: r.Intn(4), Errno: pick(r, "ENETUNREACH", "ENOBUFS", "EPERM", "EPIPE")})
 	}
 	nt := 2 + b.n(5)
 	if r.Intn(3) == 0 {
